@@ -47,12 +47,12 @@ def pure_outcome(block, handlers=None):
 def oracle(ctx, case, real, rt):
     faults = len(rt.failures) + rt.ser_calls_failed() + rt.ext_calls_failed()
     ctx.count("faults_reached", n=faults)
+    out = real["outcome"]
+    if out == "stuck":
+        return
     bad = [a for a in rt.api if a[1] != "ok"]
     if bad:
         ctx.violation("eliot API call %s %s" % bad[0], case)
-        return
-    out = real["outcome"]
-    if out == "stuck":
         return
     for tag, what in rt.checks:
         if tag == "ret":
